@@ -80,13 +80,27 @@ def modelServe (r : Router) (p : String) : Router × String :=
 def decodeSegs (s : String) : Option (List Str) :=
   if s = "none" then some [] else (s.splitOn ",").mapM decodeStr
 
-/-- `wire <transport> <code> <segments> <bytes>`: the transport and the bytes are the harness's business -/
-def modelWire (r : Router) (code segs : String) : Router × String :=
+/-- the preamble of a `wire` line: `<transport>+obsfail:<token>` / `+discfail:<token>`; the request carries that token -/
+def preamble (transport : String) : List FailedExchange × Token :=
+  match transport.splitOn "+" with
+  | [_, pre] =>
+    match pre.splitOn ":" with
+    | [kind, tokHex] =>
+      let tok : Token := ((parseHex? tokHex).getD []).map (·.toNat)
+      if kind = "obsfail" then ([.observe tok], tok)
+      else if kind = "discfail" then ([.discovery tok], tok)
+      else ([], tok)
+    | _ => ([], [])
+  | _ => ([], [])
+
+/-- `wire <transport>[+preamble] <code> <segments> <bytes>`: the transport and the bytes are the harness's business -/
+def modelWire (r : Router) (transport code segs : String) : Router × String :=
   match code.toNat?, decodeSegs segs with
   | some c, some sg =>
     let path := wirePath (decodedSegs sg)
     let k := (r.z.filter (fun e => pathMatch e.2 (filterPath (path.getD [])))).length
-    (r, joinWith " || " (dedup ((orders r.z).map (fun o => fmtOutcome (r.wireServe o c sg)))) ++ s!" ## {k}")
+    let (failed, tok) := preamble transport
+    (r, joinWith " || " (dedup ((orders r.z).map (fun o => fmtOutcome (r.connServe failed o c tok sg)))) ++ s!" ## {k}")
   | _, _ => (r, "bad-op")
 
 def modelStep (r : Router) (line : String) : Router × String :=
@@ -117,7 +131,7 @@ def modelStep (r : Router) (line : String) : Router × String :=
   | ["defaultf", h] => (r.defaultHandle (some (if h = "nil" then .nilFunc else .named h)), "ok")
   | ["mw", m] => (r.use m, "ok")
   | ["served", p] => modelServe r p
-  | ["wire", _, code, segs, _] => modelWire r code segs
+  | ["wire", tr, code, segs, _] => modelWire r tr code segs
   | ["serve", p] => modelServe r p
   | ["match", p] =>
     match decodeStr p with
